@@ -1,4 +1,4 @@
-"""C20 — options and edits are isolated per call and per block (threads: outside the claim, see DESIGN.md).
+"""C20 — options and edits are isolated per call, per block and (P3, one preemption at source-line granularity) per thread.
 
 K1: the option store. One cell per option name. Symbolic: the value (index into a vocabulary of ~36 values incl. every
     documented form and near-misses), a second option + value, whether the block raises, nesting with an inner block or an
